@@ -226,6 +226,37 @@ def energy(run):
       if model is not None:
         run.violation(dict(clause="energy_nonneg", mode=mode), dict(model=str(model)[:300]), dict(clause="energy_nonneg", mode=mode))
     run.configs.append("energy_mem:%s:%s:%s" % (mode, io, inp))
+  # placement of model inputs / outputs is decided by rd_wr_on_io alone ("if false, we assume data is already in SRAM"; if true it
+  # is moved from / to DRAM): the entry of an I/O layer equals that of an inner layer placed in dram (True) / sram (False),
+  # whatever activations_on_memory says
+  for mode, io in itertools.product(("dram", "sram", "fixed"), (True, False)):
+    ref_mode = "dram" if io else "sram"
+
+    def fn3(mode=mode, io=io, ref_mode=ref_mode):
+      rd = qenergy.memory_read_energy(True, (None, SymInt(sz)), mode, SymInt(msz), io, SymInt(bits))
+      rd_ref = qenergy.memory_read_energy(False, (None, SymInt(sz)), ref_mode, SymInt(msz), io, SymInt(bits))
+      wr = qenergy.memory_write_energy(True, (None, SymInt(sz)), mode, SymInt(msz), io, SymInt(bits))
+      wr_ref = qenergy.memory_write_energy(False, (None, SymInt(sz)), ref_mode, SymInt(msz), io, SymInt(bits))
+      return rd, rd_ref, wr, wr_ref
+    try:
+      with pysym.shadow(qenergy):
+        paths, limits = pysym.explore(fn3, base=base2)
+    except Exception as e:  # pylint: disable=broad-except
+      run.aux.setdefault("energy_memory_not_executable", []).append("io placement %s/%s: %r" % (mode, io, str(e)[:160]))
+      continue
+    for pi, (pc, (rd, rd_ref, wr, wr_ref), facts) in enumerate(paths):
+      diff = []
+      for a_, b_ in ((rd, rd_ref), (wr, wr_ref)):
+        ea, eb = _as_real(a_), _as_real(b_)
+        if ea is not None and eb is not None:
+          diff.append(ea != eb)
+      if not diff:
+        continue
+      v, model = harness.z3_query(run, "energy_io_%s_%s_p%d" % (mode, int(io), pi), list(pc), [z3.Or(*diff)],
+                                  dict(clause="io_placement", mode=mode, rd_wr_on_io=io))
+      if model is not None:
+        run.violation(dict(clause="io_placement", mode=mode, rd_wr_on_io=io), dict(model=str(model)[:300]), dict(clause="io_placement", mode=mode, rd_wr_on_io=io))
+    run.configs.append("energy_io:%s:%s" % (mode, io))
 
 
 def _as_real(v):
